@@ -73,6 +73,13 @@ type Runner struct {
 	// AttachOpts returns the attach options for the i-th attaching peer.
 	AttachOpts func(i int) []interface{}
 
+	// Decisions records which steps (by index) a guard excluded; Forced, when
+	// set, are the decisions of the twin run that this run must repeat so that
+	// both runs execute the same steps. A step that this run's own guard
+	// excludes although the twin did not is excluded too and counted as
+	// decision_mismatch (the cross-run comparison is then not valid).
+	Decisions map[int]string
+	Forced    map[int]string
 	// RecordCalls collects the storage events of every sync step (fault-free
 	// twin of a fault-enumeration case).
 	RecordCalls bool
@@ -268,7 +275,23 @@ func (r *Runner) Step(s Step) *Failure {
 		}
 		if r.Guard != nil {
 			ns, why := r.Guard(p.D, s)
+			if r.Forced != nil {
+				if fw, ok := r.Forced[r.cur]; ok && why == "" {
+					// the twin excluded this step: repeat its decision
+					ns, why = Step{}, fw
+					if fw == "F2" || fw == "F6" || fw == "F10" || fw == "F11" {
+						// rewriting guards are deterministic functions of the (equal) states
+						ns, why = r.Guard(p.D, s)
+					}
+				} else if !ok && why != "" {
+					r.Ev["decision_mismatch"]++
+				}
+			}
 			if why != "" {
+				if r.Decisions == nil {
+					r.Decisions = map[int]string{}
+				}
+				r.Decisions[r.cur] = why
 				r.Ev["excluded:"+why]++
 				s = ns
 				if s.Op == "" {
@@ -699,6 +722,8 @@ type Result struct {
 	Ordered  bool
 	Peers    int
 	Calls    map[int][]CallRec
+	// Decisions are the exclusion decisions taken (step index -> finding id).
+	Decisions map[int]string
 }
 
 // RunOpts selects optional oracles of Run.
@@ -714,6 +739,7 @@ type RunOpts struct {
 	AfterQuiesc       func(r *Runner) *Failure
 	AttachOpts        func(i int) []interface{}
 	RecordCalls       bool
+	Forced            map[int]string // exclusion decisions of the twin run to repeat
 }
 
 // Run executes the whole program: start, steps, quiescent round, convergence
@@ -732,6 +758,10 @@ func Run(p Program, o RunOpts) (res Result) {
 		res.Ordered = r.ActorsOrdered()
 		res.Peers = len(r.Peers)
 		res.Calls = r.Calls
+		res.Decisions = r.Decisions
+		if res.Decisions == nil {
+			res.Decisions = map[int]string{}
+		}
 		r.Close()
 	}()
 	if f := r.Start(); f != nil {
@@ -739,6 +769,7 @@ func Run(p Program, o RunOpts) (res Result) {
 		return
 	}
 	r.RecordCalls = o.RecordCalls
+	r.Forced = o.Forced
 	base := 0
 	phase := func(steps []Step) *Failure {
 		for i, s := range steps {
